@@ -48,3 +48,24 @@ Theorem C15_cpu_stable_on_grid : forall ws : list wres,
   Forall on_grid ws -> (ktotal ws <= BND)%Z -> cpu_stable ws.
 Proof. exact cpu_stable_on_grid. Qed.
 Print Assumptions C15_cpu_stable_on_grid.
+
+(* the repair next to a concurrent re-allocation (calcium level): both take the
+   pod lock of the node.  For every schedule of the interleaving model
+   (Cobalt/RepairLock.v) the usage equals the recorded sum once both operations
+   have finished, and before that it differs only while the re-allocation holds
+   the lock between its two writes; with the node-operation lock instead of the
+   pod lock a schedule exists that ends with usage <> record. *)
+From Coq Require Import ZArith.
+From Verif Require Import Cobalt.RepairLock Cobalt.RepairLockProofs.
+
+Theorem C15_repair_serialised : forall (d x : Z) (sched : list tid),
+  let s := crun d LPod (cinit x) sched in
+  cinv d s /\ (finished s = true -> c_usage s = c_record s).
+Proof. exact repair_serialised. Qed.
+Print Assumptions C15_repair_serialised.
+
+Theorem C15_repair_needs_pod_lock :
+  let s := crun 5 LNode (cinit 10) [TA; TA; TB; TB; TB; TA; TA] in
+  finished s = true /\ c_usage s <> c_record s.
+Proof. exact repair_needs_pod_lock. Qed.
+Print Assumptions C15_repair_needs_pod_lock.
